@@ -256,7 +256,7 @@ class Calmux(Driver):
     def is_ack(self, outs):
         return bool(outs) and outs[-1] == ('reply', 'ack\n')
 
-    def is_acked_write(self, reg, line, outs):
+    def is_acked_write(self, reg, line, outs, value=None):
         """may this chunk contain an acknowledged write of reg (conservative; ends the quiet history)"""
         return ('reply', 'ack\n') in outs and {'input': 'I', 'cal': 'C'}[reg] in line
 
@@ -422,8 +422,18 @@ class Ifd(Driver):
     def is_ack(self, outs):
         return bool(outs) and outs[-1] == ('reply', 'ack\n')
 
-    def is_acked_write(self, reg, line, outs):
-        return ('reply', 'ack\n') in outs and self.letters[reg] in line
+    def is_acked_write(self, reg, line, outs, value=None):
+        if reg == 'lo' and 'S' in line and ('ValueError', None) in outs:
+            return True      # the float-enable S line stores before it raises (known finding): not quiet
+        if not (('reply', 'ack\n') in outs and self.letters[reg] in line):
+            return False
+        if reg == 'att' and value is not None:
+            # per-channel theorem: a clean single `A b c v` line to another (board, channel) is quiet
+            import re
+            m = re.fullmatch(r'A (\d+) (\d) [0-9.]+[\n\r]', line)
+            if m and (int(m.group(1)), int(m.group(2))) != (value[0], value[1]):
+                return False
+        return True
 
     def status(self, system, b):
         o = feed(system, '? %d\n' % b)
@@ -542,7 +552,7 @@ class Ifd14(Driver):
     def is_ack(self, outs):       # no acknowledgement on the wire: a set is accepted when parse returns ''
         return bool(outs) and outs[-1] == ('empty', None)
 
-    def is_acked_write(self, reg, line, outs):
+    def is_acked_write(self, reg, line, outs, value=None):
         return (('empty', None) in outs and {'att': 'ATT', 'swt': 'SWT'}[reg] in line) or ('none', None) in outs
 
     def readback(self, system, reg, value):
@@ -647,6 +657,25 @@ class Gaia(Driver):
     def echo_ok(self, q, r):
         return r.endswith(' ' + q.split()[-1] + '\n')
 
+    KNOWN_CMDS = ['*IDN?', 'LOADCONF', 'CONF?', 'SETD', 'SETG', 'GETVG', 'GETVD', 'GETID', 'GETREF', 'GETEMP',
+                  'NAME?'] + GAIA_ECHO
+
+    def echo_pair(self, rng):
+        """[line1, line2]: line2 any request (valid, refused for a missing / non-integer / out-of-range argument
+        or for too many arguments) whose command word is known, so that self.cmd_id is set from it; different ids"""
+        while True:
+            l2 = self.valid_line(rng) if rng.random() < 0.4 else self.odd_line(rng)
+            toks = l2.lstrip('#').split()
+            if len(toks) >= 2 and toks[0] in self.KNOWN_CMDS:
+                break
+        id1 = rng.choice([x for x in ['A1', 'prev', '9', 'zz'] if x != toks[-1]])
+        l1 = rng.choice(['#GETVD 1 %s\n', '#*IDN? %s\n', '#SETD 2 5 %s\n', '#FOO 1 %s\n', '#GETVD 99 %s\n']) % id1
+        return [l1, l2]
+
+    witnesses = dict(c04=[('echo', ['', '\n', '#GETVD 1 A\n', '#GETVD 1 2 B\n']),
+                          ('echo', ['', '\n', '#*IDN? A\n', '#NAME? 7 B\n']),
+                          ('echo', ['', '\n', '#SETD 1 1 A\n', '#SETD 1 1 1 B\n'])])
+
     registers = ('vd', 'vg', 'conf')
 
     def sample_write(self, rng, reg):
@@ -668,7 +697,7 @@ class Gaia(Driver):
     def is_ack(self, outs):       # acknowledged = a non-error reply echoing the first argument
         return bool(outs) and outs[-1][0] == 'reply' and not outs[-1][1].startswith('#ERROR')
 
-    def is_acked_write(self, reg, line, outs):
+    def is_acked_write(self, reg, line, outs, value=None):
         cmd = dict(vd='SETD', vg='SETG', conf='LOADCONF')[reg]
         return cmd in line and any(t == 'reply' and not p.startswith('#ERROR') for t, p in outs)
 
@@ -859,7 +888,7 @@ def chk_write(drv, hist, term, reg, line, kind, value, quiet):
             ('outdomain_acked_' + reg, 'out-of-domain write acknowledged')
     for ln in quiet:
         oo = feed(s, ln)
-        if drv.is_acked_write(reg, ln, oo):
+        if drv.is_acked_write(reg, ln, oo, value):
             return None          # not a quiet history after all: nothing to check
     feed(s, term)
     exp, obs = drv.readback(s, reg, value)
@@ -868,7 +897,21 @@ def chk_write(drv, hist, term, reg, line, kind, value, quiet):
     return None
 
 
-CHECKS = dict(resync=chk_resync, overflow=chk_overflow, idle_discard=chk_idle_discard, fresh=chk_fresh,
+def chk_echo(drv, hist, term, line1, line2):
+    """two requests with different ids: the reply to the second names the second"""
+    s = drv.new()
+    feed(s, hist)
+    feed(s, term)
+    feed(s, line1)
+    o = feed(s, line2)
+    if not one_reply_shape(o):
+        return 'echo_unanswered', 'request not answered by exactly one reply'
+    if not drv.echo_ok(line2, o[-1][1]):
+        return 'reply_echo', 'reply does not carry the id of the request it answers'
+    return None
+
+
+CHECKS = dict(echo=chk_echo, resync=chk_resync, overflow=chk_overflow, idle_discard=chk_idle_discard, fresh=chk_fresh,
               query=chk_query, replies=chk_replies, write=chk_write)
 
 
@@ -913,9 +956,14 @@ def oracle(ctx, sim, prop):
         qs = drv.queries()
         for i in range(n):
             h = history(rng, drv)
+            if i % 2:       # end the history with a boundary / out-of-domain / malformed write of a register
+                h += term + ''.join(drv.sample_write(rng, rng.choice(drv.registers))[0]
+                                    for _ in range(rng.choice([1, 1, 2])))
             for q in (qs if len(qs) <= 8 else rng.sample(qs, 8)):
                 run_check(ctx, drv, prop, 'query', [h, term, q])
     elif prop == 'c04':
+        for i in range(n if hasattr(drv, 'echo_pair') else 0):
+            run_check(ctx, drv, prop, 'echo', [history(rng, drv) if i % 3 == 0 else '', term] + drv.echo_pair(rng))
         for i in range(n):
             run_check(ctx, drv, prop, 'replies', [history(rng, drv) + term + ''.join(
                 rng.sample(drv.queries(), min(3, len(drv.queries()))))])
